@@ -515,17 +515,18 @@ type c10ChildReq struct {
 	Files  map[string]string `json:"files,omitempty"`
 }
 type c10ChildResp struct {
-	Cls     string   `json:"cls"`
-	Msg     string   `json:"msg,omitempty"`
-	After   string   `json:"after,omitempty"`  // Coq term
-	Marked  string   `json:"marked,omitempty"` // Coq term
-	NHits   int      `json:"nhits,omitempty"`
-	Afters  string   `json:"afters,omitempty"` // Coq term (list)
-	AfterY  []string `json:"aftery,omitempty"` // the same documents as YAML
-	NoEnc   string   `json:"noenc,omitempty"`  // the filter succeeded but a resulting document cannot be encoded: the encoder's error
-	Output  string   `json:"output,omitempty"` // build output yaml
-	Unrep   bool     `json:"unrep,omitempty"`  // result not representable as a Coq term
-	Timeout bool     `json:"timeout,omitempty"`
+	Cls     string      `json:"cls"`
+	Msg     string      `json:"msg,omitempty"`
+	After   string      `json:"after,omitempty"`  // Coq term
+	Marked  string      `json:"marked,omitempty"` // Coq term
+	NHits   int         `json:"nhits,omitempty"`
+	Afters  string      `json:"afters,omitempty"` // Coq term (list)
+	AfterY  []string    `json:"aftery,omitempty"` // the same documents as YAML
+	Undec   [][2]string `json:"undec,omitempty"`  // (tag, text) pairs on which Node.Decode fails: the decodes oracle of the model
+	NoEnc   string      `json:"noenc,omitempty"`  // the filter succeeded but a resulting document cannot be encoded: the encoder's error
+	Output  string      `json:"output,omitempty"` // build output yaml
+	Unrep   bool        `json:"unrep,omitempty"`  // result not representable as a Coq term
+	Timeout bool        `json:"timeout,omitempty"`
 }
 
 func c10Exec(req c10ChildReq) (resp c10ChildResp) {
@@ -573,6 +574,7 @@ func c10Exec(req c10ChildReq) (resp c10ChildResp) {
 		for _, r := range req.Repls {
 			f.Replacements = append(f.Replacements, r.typ())
 		}
+		resp.Undec = c10UndecPairs(req)
 		var out []*kyaml.RNode
 		cls, msg := protect(func() error {
 			var e error
@@ -602,6 +604,69 @@ func c10Exec(req c10ChildReq) (resp c10ChildResp) {
 		return c10ChildResp{Cls: cls, Msg: msg, Output: out}
 	}
 	return c10ChildResp{Cls: "bad-request"}
+}
+
+// c10UndecPairs: the `decodes` oracle of the replacement model — go-yaml's Node.Decode on a scalar with a
+// given tag and text. Shipped as the list of (tag, text) pairs on which it FAILS, for the typed tags that
+// occur in the input documents and the scalar texts of the inputs and of the results of every prefix of
+// the replacement list (every text a replacement writes is in the result of the prefix ending with it).
+func c10UndecPairs(req c10ChildReq) [][2]string {
+	tags, texts := map[string]bool{}, map[string]bool{}
+	var walk func(n *kyaml.Node, collectTags bool)
+	walk = func(n *kyaml.Node, collectTags bool) {
+		if n == nil {
+			return
+		}
+		if n.Kind == kyaml.ScalarNode {
+			texts[n.Value] = true
+			if collectTags {
+				switch n.Tag {
+				case "!!null", "!!int", "!!bool", "!!float":
+					tags[n.Tag] = true
+				}
+			}
+		}
+		for _, c := range n.Content {
+			walk(c, collectTags)
+		}
+	}
+	if in, ok := c10ParseDocs(req.Docs); ok {
+		for _, n := range in {
+			walk(n.YNode(), true)
+		}
+	}
+	for k := 1; k <= len(req.Repls); k++ {
+		nodes, ok := c10ParseDocs(req.Docs)
+		if !ok {
+			break
+		}
+		f := replacement.Filter{}
+		for _, r := range req.Repls[:k] {
+			f.Replacements = append(f.Replacements, r.typ())
+		}
+		var out []*kyaml.RNode
+		if cls, _ := protect(func() error {
+			var e error
+			out, e = f.Filter(nodes)
+			return e
+		}); cls != ClsOk {
+			break
+		}
+		for _, n := range out {
+			walk(n.YNode(), false)
+		}
+	}
+	pairs := [][2]string{}
+	for _, tg := range sortedKeys(tags) {
+		for _, tx := range sortedKeys(texts) {
+			var probe interface{}
+			n := kyaml.Node{Kind: kyaml.ScalarNode, Tag: tg, Value: tx}
+			if err := n.Decode(&probe); err != nil {
+				pairs = append(pairs, [2]string{coqTag(tg), tx})
+			}
+		}
+	}
+	return pairs
 }
 
 func c10ChildMain() {
@@ -2092,7 +2157,11 @@ func c10EmitRepl(run *Run, c c10Case, resp c10ChildResp) {
 	if changed {
 		run.Count("repl", "changed")
 	}
-	run.AddCase(fmt.Sprintf("(KRepl %s %s %s [%s] %s %s %s)", tab.coq(), coqStrList(ns), coqGvks(c10ClusterScoped(nodes, extra...)),
+	undec := []string{}
+	for _, p := range resp.Undec {
+		undec = append(undec, "("+p[0]+", "+coqStr(p[1])+")")
+	}
+	run.AddCase(fmt.Sprintf("(KRepl %s %s [%s] %s [%s] %s %s %s)", tab.coq(), coqStrList(ns), strings.Join(undec, "; "), coqGvks(c10ClusterScoped(nodes, extra...)),
 		strings.Join(parts, "; "), orig, resp.Cls, after), c, changed)
 }
 
